@@ -111,15 +111,18 @@ func (c *ReplayCache) IsDuplicate(data []byte, tag string) bool {
 			return true
 		}
 		return existingTag != tag
-	} else {
-		c.current[signature] = tag
 	}
 	if existingTag, ok := c.previous[signature]; ok {
+		// Carry the entry over with its original tag. Recording the tag of
+		// this call instead would let the second replay from the same
+		// foreign source pass as a retransmission of the original sender.
+		c.current[signature] = existingTag
 		if existingTag == EmptyTag || tag == EmptyTag {
 			return true
 		}
 		return existingTag != tag
 	}
+	c.current[signature] = tag
 	return false
 }
 
